@@ -1,5 +1,6 @@
 """C20 - key naming modes and config-file key names are mutually consistent."""
 import string
+import sys
 
 import common
 import keylib
@@ -23,6 +24,10 @@ class C20(C03):
             elif inp["op"] == "stream":
                 yield dict(inp, op="stream20")
         yield {"op": "tables"}
+        # the tables as a fresh interpreter builds them under other terminal types (the environment is part of "every
+        # entry of both tables": a serial console, a BSD console, no TERM at all)
+        for term in ("vt100", "vt52", "sun", "cons25", "linux", "dumb", "screen", ""):
+            yield {"op": "termtables", "term": term}
         names = [""] + ["C-" + c for c in string.ascii_lowercase] + ["C-[", "C-\\", "C-]", "C-^", "C-_"] + \
                 ["M-" + chr(c) for c in range(33, 127)] + ["F%d" % i for i in range(1, 13)]
         for n in names:
@@ -41,6 +46,24 @@ class C20(C03):
             return ev
         if inp["op"] == "tables":
             return dict(inp)
+        if inp["op"] == "termtables":
+            import json
+            import os
+            import subprocess
+            import common
+            env = dict(os.environ)
+            env.pop("TERM", None)
+            if inp["term"]:
+                env["TERM"] = inp["term"]
+            code = ("import sys, json; sys.path.insert(0, %r); from curtsies import events as e; "
+                    "print(json.dumps({'curses': sorted(list(k) for k in e.CURSES_NAMES), 'curtsies': sorted(list(k) for k in e.CURTSIES_NAMES)}))" % common.REPO)
+            p = subprocess.run([sys.executable, "-c", code], env=env, capture_output=True, text=True, timeout=60)
+            ev = dict(inp)
+            if p.returncode != 0:
+                ev.update(k="exc", curses=[], curtsies=[])
+            else:
+                ev.update(json.loads(p.stdout.strip().splitlines()[-1]), k="ok")
+            return ev
         from curtsies.configfile_keynames import keymap
         ev = dict(inp)
         try:
